@@ -33,6 +33,8 @@ declare -A MAP=(
  ["at every call site of a layer invoked multiple times"]="C07"
  ["ties the features of all the call sites"]="C09"
  ["pads every call site and leaves shared padding"]="C08"
+ ["two features concatenations that are summed"]="C09"
+ ["whatever way the axis is spelled"]="C09"
 )
 fail=0
 git -C /repo log --format='%h %s' bfd6014..HEAD | grep ' fix:' | while read h msg; do
